@@ -25,7 +25,6 @@ import (
 	"github.com/go-openapi/analysis/internal/flatten/replace"
 	"github.com/go-openapi/analysis/internal/flatten/schutils"
 	"github.com/go-openapi/analysis/internal/flatten/sortref"
-	"github.com/go-openapi/jsonpointer"
 	"github.com/go-openapi/spec"
 )
 
@@ -272,27 +271,49 @@ func removeUnused(opts *FlattenOpts) {
 }
 
 func removeUnusedSinglePass(opts *FlattenOpts) (hasRemoved bool) {
+	// unused definitions, by name
 	expected := make(map[string]struct{})
 	for k := range opts.Swagger().Definitions {
-		expected[path.Join(definitionsPath, jsonpointer.Escape(k))] = struct{}{}
+		expected[k] = struct{}{}
 	}
 
-	for _, k := range opts.Spec.AllDefinitionReferences() {
-		delete(expected, k)
+	for _, ref := range opts.Spec.references.schemas {
+		if name, ok := definitionName(ref); ok {
+			delete(expected, name)
+		}
 	}
 
 	for k := range expected {
 		hasRemoved = true
-		debugLog("removing unused definition %s", path.Base(k))
+		debugLog("removing unused definition %s", k)
 		if opts.Verbose {
-			log.Printf("info: removing unused definition: %s", path.Base(k))
+			log.Printf("info: removing unused definition: %s", k)
 		}
-		delete(opts.Swagger().Definitions, path.Base(k))
+		delete(opts.Swagger().Definitions, k)
 	}
 
 	opts.Spec.reload() // re-analyze
 
 	return hasRemoved
+}
+
+// definitionName yields the name of the top-level definition designated by a local $ref, i.e. "#/definitions/{name}".
+//
+// The name is taken from the decoded JSON pointer, so names that need escaping in a $ref
+// (e.g. "a/b", "a b") are compared as they appear in the definitions section.
+func definitionName(ref spec.Ref) (string, bool) {
+	const definitionTokens = 2
+
+	if !ref.HasFragmentOnly {
+		return "", false
+	}
+
+	tokens := ref.GetPointer().DecodedTokens()
+	if len(tokens) != definitionTokens || tokens[0] != "definitions" {
+		return "", false
+	}
+
+	return tokens[1], true
 }
 
 func importKnownRef(entry sortref.RefRevIdx, refStr, newName string, opts *FlattenOpts) error {
